@@ -43,7 +43,9 @@ NoDev == {"tmpfs", "zfs", "proc"}                 \* flagged nodev in /proc/file
 DiskBacked == (FsTypes \ NoDev) \cup {"zfs"}      \* nodev is ignored except for zfs
 \* mount options: the usual few, or an overlay-style list of 2800 bytes (a mount line
 \* may be as long as the kernel cares to print it)
-OptKinds == {"short", "long"}
+\* ... or options holding a byte sequence that is not UTF-8 (lowerdir=/srv/caf\xe9): the
+\* outcome of the whole call is then a value or a Python exception
+OptKinds == {"short", "long", "badutf8"}
 OptLen(o) == IF o = "long" THEN 2800 ELSE 11
 MountEnts == [dev : Devs, dir : Dirs, type : FsTypes, opts : OptKinds]
 MountInputs == [fam : {"mounts"}, ents : {<<e>> : e \in MountEnts}
@@ -51,7 +53,8 @@ MountInputs == [fam : {"mounts"}, ents : {<<e>> : e \in MountEnts}
                 all : BOOLEAN]
 DevOut(d) == IF d = "none" THEN "" ELSE d
 Keep(i, e) == i.all \/ (DevOut(e.dev) # "" /\ e.type \in DiskBacked)
-MountOut(i) == [rows |-> [k \in {j \in 1..Len(i.ents) : Keep(i, i.ents[j])} |->
+MountOut(i) == IF \E j \in 1..Len(i.ents) : i.ents[j].opts = "badutf8" THEN [class |-> "value_or_exception"] ELSE
+               [rows |-> [k \in {j \in 1..Len(i.ents) : Keep(i, i.ents[j])} |->
                             [device |-> DevOut(i.ents[k].dev), mountpoint |-> i.ents[k].dir,
                              fstype |-> i.ents[k].type, optslen |-> OptLen(i.ents[k].opts)]]]
 
@@ -88,8 +91,9 @@ Done == out # Pending
 StringsWithinWidth == (Done /\ inp.fam = "utmp") =>
    \A k \in DOMAIN out.rows : out.rows[k].userlen <= 32 /\ out.rows[k].ttylen <= 32 /\ out.rows[k].hostlen <= 256
 OnlyUserProcess == (Done /\ inp.fam = "utmp") => Cardinality(DOMAIN out.rows) = Cardinality({j \in 1..Len(inp.recs) : inp.recs[j].type = "USER"})
-AllKeepsEverything == (Done /\ inp.fam = "mounts" /\ inp.all) => Cardinality(DOMAIN out.rows) = Len(inp.ents)
-FilterNeedsDevice == (Done /\ inp.fam = "mounts" /\ ~inp.all) => \A k \in DOMAIN out.rows : out.rows[k].device # ""
+Decodable == \A j \in 1..Len(inp.ents) : inp.ents[j].opts # "badutf8"
+AllKeepsEverything == (Done /\ inp.fam = "mounts" /\ inp.all /\ Decodable) => Cardinality(DOMAIN out.rows) = Len(inp.ents)
+FilterNeedsDevice == (Done /\ inp.fam = "mounts" /\ ~inp.all /\ Decodable) => \A k \in DOMAIN out.rows : out.rows[k].device # ""
 
 DumpL == PrintT(<<"TR", ToJson(<<inp, out>>), ToJson(ev'), ToJson(<<inp', out'>>), TLCGet("level")>>)
 =============================================================================
